@@ -282,7 +282,7 @@ QUAL_VALS = ["abcA", "hypothetical protein", "a/b", "x=y", "/note=inner", "1", "
 
 
 # GFF3 column values carry no leading/trailing blank (the reader strips the line)
-GFF_VALS = [v for v in QUAL_VALS if v == v.strip()] + ["a;b", "k=v", "50%", "a,b", "a&b"]
+GFF_VALS = [v for v in QUAL_VALS if v == v.strip()] + ["a;b", "k=v", "50%", "a,b", "a&b", "Na+/K+ ATPase", "cds+1", "+", "a%2Bb"]
 
 
 def gen_location(rng, maxpos):
